@@ -77,10 +77,15 @@ def cases(rng, tier):
         elif kind == 'spin':
             L = rng.choice([1, 2, 2, 3, 3] + ([4] if tier != 'quick' else []))
         else:
-            L = rng.choice([4, 5, 6])
+            # some blocks of the gauge matrices are only populated for L >= 7 (pairs in the right half of a long lattice)
+            L = rng.choice([4, 5, 6, 7, 7, 8] if tier != 'quick' else [4, 5, 6, 7])
         out.append({'kind': kind, 'L': L, 'seed': rng.getrandbits(30), 'dtype': rng.choice(['real', 'real', 'complex']),
-                    'struct': rng.choice(['dense', 'dense', 'sparse', 'symmetric', 'padded', 'integer']),
+                    'struct': rng.choice(['dense', 'dense', 'sparse', 'symmetric', 'padded', 'integer', 'single']),
                     'utype': rng.choice(['rotation', 'phase', 'generic', 'swap'])})
+    # long lattices with genuinely complex 2x2 unitaries in every run: the blocks of the gauge matrices that are only
+    # populated for pairs in the right half of a lattice with L >= 7 are complex-conjugated entries
+    for L, ut, dt in ((7, 'generic', 'complex'), (7, 'phase', 'real'), (8, 'generic', 'real')) if tier != 'search' else ((7, 'generic', 'complex'),):
+        out.append({'kind': 'gauge', 'L': L, 'seed': rng.getrandbits(30), 'dtype': dt, 'struct': 'dense', 'utype': ut})
     if tier == 'thorough':
         # largest sizes: exact runs + Coq only (the dense reference of the spin model at L = 5 is out of reach)
         for kind, L, dt, st in (('mol', 7, 'complex', 'dense'), ('mol', 7, 'real', 'sparse'), ('spin', 4, 'complex', 'dense'),
@@ -109,6 +114,15 @@ def coefficients(case):
         t[-1, :] = 0; t[:, -1] = 0; v[-1] = 0; v[:, -1] = 0; v[:, :, -1] = 0; v[:, :, :, -1] = 0
     elif s == 'integer':
         t = np.round(2 * t); v = np.round(v)
+    elif s == 'single':
+        # exactly one non-zero term, with a coefficient of modulus one (or not): a single operator chain survives
+        c = [-1.0, 1j if cplx else -1.0, 1.0, 2.5, -0.5][int(rs.integers(0, 5))]
+        t = np.zeros_like(t); v = np.zeros_like(v)
+        if rs.random() < 0.6 or L < 2:
+            t[int(rs.integers(0, L)), int(rs.integers(0, L))] = c
+        else:
+            i, j = sorted(rs.choice(L, size=2, replace=False))
+            v[i, j, i, j] = c
     if not np.any(t) and not np.any(v):
         t[0, 0] = 1.0
     return t, v
